@@ -477,6 +477,20 @@ func (ex *Exec) cutLoop(fr *Frame, li *loopInfo, pc *Term, st *State, nloops int
 		names = append(names, n)
 	}
 	sort.Strings(names)
+	// frame as an implicit loop invariant: objects that existed when the verified function was entered
+	// and are not modifies targets keep their entry value (checked here and at every back edge)
+	frameComps := ex.loopFrameComps(fr, ws)
+	for _, n := range frameComps {
+		tf := ex.topFrame
+		g := ex.frameGoal(tf.modTargetsCache, n, st.comp(n, compSorts[n]), tf.entry.comp(n, compSorts[n]), tf.entry.next)
+		ex.oblige(fr, "frame-init", fmt.Sprintf("loop %d: %s", li.ord, n), pos, pc, g, ex.curContract.Props)
+	}
+	defer func() {
+		for _, n := range frameComps {
+			tf := ex.topFrame
+			ex.assume(pc, ex.frameGoal(tf.modTargetsCache, n, st.comp(n, compSorts[n]), tf.entry.comp(n, compSorts[n]), tf.entry.next))
+		}
+	}()
 	for _, n := range names {
 		if strings.HasPrefix(n, "!") {
 			continue
@@ -639,6 +653,13 @@ func (ex *Exec) loopBackEdge(fr *Frame, li *loopInfo, pc *Term, st *State) {
 		return
 	}
 	pos := li.header.Instrs[0].Pos()
+	if rec := fr.loopRecs[li]; rec != nil {
+		for _, n := range ex.loopFrameComps(fr, rec.ws) {
+			tf := ex.topFrame
+			g := ex.frameGoal(tf.modTargetsCache, n, st.comp(n, compSorts[n]), tf.entry.comp(n, compSorts[n]), tf.entry.next)
+			ex.oblige(fr, "frame-step", fmt.Sprintf("loop %d: %s", li.ord, n), pos, pc, g, c.Props)
+		}
+	}
 	if rec := fr.loopRecs[li]; rec != nil && rec.head != nil {
 		// preserved n :: g(n) :: e(n): e has the same value at the cut point and at the back edge for every
 		// n with g(n) (g evaluated at the cut point); proved by induction on n, then assumed for all n
@@ -871,4 +892,30 @@ func (ex *Exec) loopBufferTargets(fr *Frame, st *State, li *loopInfo, cells map[
 		}
 	}
 	return out, true
+}
+
+// loopFrameComps: the components for which the frame is carried through a loop cut as an implicit
+// invariant: those the loop havocs, when the verified function has a frame obligation
+func (ex *Exec) loopFrameComps(fr *Frame, ws map[string]bool) []string {
+	tf := ex.topFrame
+	c := ex.curContract
+	if tf == nil || c == nil || fr.spec || c.Lemma || len(c.Props) == 0 || !ex.V.needsFrame(c) || tf.entry == nil {
+		return nil
+	}
+	if !tf.modTargetsDone {
+		tf.modTargetsDone = true
+		tf.modTargetsCache = ex.modTargets(tf, tf.entry, True, c, tf.params)
+	}
+	var out []string
+	for n := range ws {
+		if n == "next" || n[0] == '!' || !ws["!"+n] || compSorts[n] == nil {
+			continue
+		}
+		if strings.HasPrefix(n, "B|") || (strings.HasPrefix(n, "G|") && !objectKeyedGhost[n]) {
+			continue
+		}
+		out = append(out, n)
+	}
+	sort.Strings(out)
+	return out
 }
